@@ -145,7 +145,7 @@ func c14Registry(p *Prog, r *Report) {
 
 func c14FanOut(p *Prog, r *Report) {
 	const rule = "C14.fan-out"
-	r.Rule(rule, "Proxy.OnEvent writes to clients only for SchemaChangeEvent: exactly one Write per ranged registry entry, the frame is NewFrame(version, -1, event.Message) encoded with that client's codec")
+	r.Rule(rule, "Proxy.OnEvent writes to clients only for SchemaChangeEvent: exactly one Write per ranged registry entry, the frame is NewFrame(version, -1, event.Message), one frame object per client, encoded with that client's codec")
 	px := p.Named("proxy", "Proxy")
 	fn := p.methodOf(px, "OnEvent")
 	ecF := p.Field("proxy", "Proxy", "eventClients")
@@ -211,6 +211,64 @@ func c14FanOut(p *Prog, r *Report) {
 	}
 	if !okFrame {
 		bad = append(bad, "the forwarded frame is not NewFrame(version, -1, event.Message)")
+	}
+	// each client gets a frame object of its own: the encoder writes into the frame's header
+	// (body length, flags) and runs on each client's writer goroutine
+	for _, f := range withClosures(fn) {
+		eachCall(f, func(c ssa.CallInstruction) {
+			cm := c.Common()
+			if !cm.IsInvoke() || cm.Method.Name() != "EncodeFrame" {
+				return
+			}
+			for _, o := range origins(cm.Args[0]) {
+				fv, ok := o.(*ssa.FreeVar)
+				if !ok {
+					continue
+				}
+				// where was the captured frame built?  it must be inside the per-client callback
+				enc := f
+				for enc != nil && enc.Parent() != nil {
+					idx := -1
+					for i, v := range enc.FreeVars {
+						if v == fv {
+							idx = i
+						}
+					}
+					if idx < 0 {
+						break
+					}
+					// find the binding in the parent
+					var bound ssa.Value
+					eachInstr(enc.Parent(), func(in ssa.Instruction) {
+						if mc, ok := in.(*ssa.MakeClosure); ok && mc.Fn == ssa.Value(enc) && idx < len(mc.Bindings) {
+							bound = mc.Bindings[idx]
+						}
+					})
+					if bound == nil {
+						break
+					}
+					shared := false
+					for _, bo := range origins(bound) {
+						if pfv, ok := bo.(*ssa.FreeVar); ok {
+							fv = pfv
+							shared = true
+						}
+					}
+					if !shared {
+						// built in enc.Parent(): fine if that is the Range callback (or deeper), not OnEvent itself
+						if enc.Parent() == fn {
+							bad = append(bad, p.Pos(c.Pos())+": one frame object is built per event and encoded by every registered client's writer goroutine: the encoder writes the frame's header (body length), concurrently for all clients")
+						}
+						break
+					}
+					enc = enc.Parent()
+					if enc == fn {
+						bad = append(bad, p.Pos(c.Pos())+": one frame object is built per event and encoded by every registered client's writer goroutine: the encoder writes the frame's header (body length), concurrently for all clients")
+						break
+					}
+				}
+			}
+		})
 	}
 	// callback: exactly one Write per entry, iteration continues
 	if mc, ok := rangeCall.Call.Args[1].(*ssa.MakeClosure); ok {
